@@ -42,6 +42,9 @@ inductive TTerm where
   | antiJoin (pos neg : TTerm)                        -- `anti_join::<'tick,'tick>`: `neg` is a stream of keys
   | difference (pos neg : TTerm)                      -- `filter_not_in`: `difference::<'tick,'tick>`
   | deferTick (t : TTerm)                             -- `defer_tick()`: `defer_tick_lazy()`
+  | acrossFold (init : Val) (f : Val → Val → Val) (t : TTerm)
+      -- `t.across_ticks(|s| s.fold(init, f))`: `all_ticks_atomic` (identity), `fold::<'static>` at the
+      -- atomic (top-level) location, snapshot back into the tick (identity)
 
 /-- `limit(n)`: the generator closure counts the items it has let through -/
 def limitStep (n : Nat) (c : Nat) (x : Val) : Nat × List Val :=
@@ -79,6 +82,9 @@ def evalAt (next : TTerm) : Nat → TTerm → List TickIn → Batch
     let neg := evalAt next fuel n hist
     (evalAt next fuel p hist).filter (fun x => !mem neg x)
   | fuel, .deferTick t, hist => if hist.length ≤ 1 then [] else evalAt next fuel t hist.dropLast
+  | fuel, .acrossFold init f t, hist =>
+    -- the `'static` accumulator has folded every batch the collection held so far, this tick's included
+    [(((List.range hist.length).map (fun i => evalAt next fuel t (hist.take (i + 1)))).flatten).foldl f init]
 termination_by fuel t => (fuel, t)
 
 /-- a tick program: what is sent to `complete_next_tick` (if a cycle is used) and the collection whose
@@ -96,6 +102,7 @@ def TTerm.stateless : TTerm → Bool
   | .batch _ => true
   | .cyc => false
   | .deferTick _ => false
+  | .acrossFold _ _ _ => false
   | .map _ t | .filter _ t | .flatMap _ t | .filterMap _ t | .enumerate t | .unique t | .sort t
   | .scan _ _ t | .limit _ t | .fold _ _ t | .reduce _ t | .kfold _ _ t => t.stateless
   | .chain a b | .crossSingleton a b | .joinHalf a b | .antiJoin a b | .difference a b =>
